@@ -26,4 +26,4 @@ let run (input : Sexp.t) (impl : Sexp.t) : Verdict.t =
     kf = "-";
     nontrivial = total > 0 && nreads > 1 && straddle;
     cls = Printf.sprintf "msgs%d_%s" (min (List.length msgs) 4) (atom_of_err (snd mobs));
-    model = sx_obs mobs }
+    model = sx_obs mobs; why = "" }
